@@ -656,8 +656,19 @@ def run(ctx):
         gname = guard_names[0].test.id if guard_names and isinstance(guard_names[0].test, ast.Name) else None
         gval = lpr["pre"].get(gname) if gname else None
         okf = False
-        if gval is not None and gval[0] == "phi" and gval[1][0] == "cmp" and gval[1][1] == ">=" and len(gval[1]) == 3 \
-                and T.linear_form(gval[1][2]).get((), 0) == -1:
+        # the guard may be a disjunction: the temperature test, and the test that the iteration cap was used up
+        c0_ = gval[1] if gval is not None and gval[0] == "phi" else None
+        parts_ = (list(c0_[1]) if c0_ is not None and c0_[0] == "or" else [c0_]) if c0_ is not None else []
+        cmp_ = next((p_ for p_ in parts_ if p_ and p_[0] == "cmp" and p_[1] == ">=" and len(p_) == 3 and T.linear_form(p_[2]).get((), 0) == -1), None)
+        cap_ = any(p_ and p_[0] == "and" and any(x_ == T.atom("max_n_steps") for x_ in T.subterms(p_)) and any(x_ and x_[0] == "cmp" and x_[1] == ">=" for x_ in T.subterms(p_))
+                   and any(x_ and x_[0] == "f" and "restore_from_checkpoint" in str(x_[1]) for x_ in T.subterms(p_)) for p_ in parts_)
+        ctx.decide(cap_, "C11.finished", sample.ident, loc_of(sample, guard_names[0] if guard_names else loop_node),
+                   "a run that had used up its iteration cap is not iterated again when resumed from its last checkpoint",
+                   "on the resumed path the loop is skipped only when the restored temperature has reached 1: a run that was stopped by max_n_steps (beta < 1) and is resumed from its "
+                   "final checkpoint with the same cap enters the loop again -- the body runs before the cap is tested -- and performs one tempering iteration more than the uninterrupted run",
+                   disc="cap")
+        if cmp_ is not None and (len(parts_) == 1 or cap_):
+            gval = ("phi", cmp_, gval[2], gval[3])
             d_ = T.add(gval[1][2], T.ONE)
             # the temperature tested is the last recorded one, or the restored temperature when nothing was recorded
             beta_pre = lpr["pre"].get(R.beta)
@@ -1020,7 +1031,7 @@ MUTANTS += [
     M("history default replaces the stored one", _B, "self.history = state.get(\"history\", SMCHistory())", "self.history = SMCHistory()", "C11.restore"),
     M("bytes source treated as a path", _SB, "if isinstance(source, str):\n            state = self.load_checkpoint_from_file(source)\n        elif isinstance(source, bytes):\n            state = pickle.loads(source)", "if isinstance(source, bytes):\n            state = self.load_checkpoint_from_file(source)\n        elif isinstance(source, str):\n            state = pickle.loads(source)", "C11.src"),
     M("finished test looks at the second recorded temperature", _B, "last_beta = self.history.beta[-1] if self.history.beta else beta", "last_beta = self.history.beta[1] if self.history.beta else beta", "C11.finished"),
-    M("finished run iterates again on resume", _B, "if last_beta >= 1.0:\n                run_smc_loop = False", "if last_beta > 1.0:\n                run_smc_loop = False", "C11.finished"),
+    M("finished run iterates again on resume", _B, "if last_beta >= 1.0 or (", "if last_beta > 1.0 or (", "C11.finished"),
     M("enlargement when sizes are equal", _B, "if n_final_samples is not None and len(samples.x) != n_final_samples:", "if n_final_samples is not None and len(samples.x) == n_final_samples:", "C11.idem"),
     M("enlargement guarded by the requested sizes", _B, "if n_final_samples is not None and len(samples.x) != n_final_samples:", "if n_final_samples is not None and n_final_samples != n_samples:", "C11.idem"),
     M("payload metadata defaults to one shared dict that every checkpoint fills", "src/aspire/samplers/base.py", "meta: dict | None = None,\n    ) -> dict:", "meta: dict = {},\n    ) -> dict:", "C11.snapshot",
@@ -1033,6 +1044,9 @@ MUTANTS += [
 ]
 MUTANTS += [
     M("bounds stacked in mapping order", "src/aspire/transforms.py", "[self.prior_bounds[p][0] for p in parameters]", "[v[0] for v in self.prior_bounds.values()]", "C11wire.wire"),
+]
+MUTANTS += [
+    M("resumed run ignores a used-up iteration cap", _B, "if last_beta >= 1.0 or (\n                max_n_steps is not None and iterations >= max_n_steps\n            ):", "if last_beta >= 1.0:", "C11.finished"),
 ]
 NEUTRALS = [
     M("payload metadata defaults to an empty dict that is copied before use", "src/aspire/samplers/base.py", "meta: dict | None = None,\n    ) -> dict:", "meta: dict = {},\n    ) -> dict:",
